@@ -144,6 +144,13 @@ type vfSnap struct {
 	UseIL       bool
 }
 
+// vfChunksEndEv: state of the receive queue right after a packet was processed (hook in handleChunksEnd).
+type vfChunksEndEv struct {
+	Seq   int64
+	Side  int
+	RecvQ int
+}
+
 type vfHookEv struct {
 	Seq  int64
 	T    time.Duration
@@ -184,6 +191,7 @@ type vfSim struct {
 	connErr  [2]error
 	connDone [2]chan struct{}
 	hookLog  []*vfHookEv
+	chunksEnd []vfChunksEndEv
 	invEvery int
 	invCount [2]int
 	yieldCnt atomic.Int64
@@ -273,6 +281,13 @@ func (s *vfSim) onHook(a *Association, side int, ev int, c *chunkPayloadData) {
 			s.mu.Lock()
 			s.gatherAdmits[side] = 0
 			s.probeInGather[side] = false
+			s.mu.Unlock()
+		}
+		if ev == vfEvChunksEnd {
+			// the receiver's own view after a packet was processed: does it still see a gap?
+			ce := vfChunksEndEv{Seq: s.net.seq.Add(1), Side: side, RecvQ: a.payloadQueue.size()}
+			s.mu.Lock()
+			s.chunksEnd = append(s.chunksEnd, ce)
 			s.mu.Unlock()
 		}
 		if s.extraHook != nil {
